@@ -80,11 +80,12 @@ func c04Threads(s string) [][]c03Query {
 	q := func(e *model.Expr) c03Query { return c03Query{Expr: e} }
 	switch s {
 	case "S1": // two Executes with overlapping sub-expressions
-		return [][]c03Query{{q(model.And(a, model.Not(b)))}, {q(model.Or(model.Not(b), a))}}
+		// values that occur in no row are part of both queries (an absent value must not make the shared state writable)
+		return [][]c03Query{{q(model.And(a, model.Not(b), model.Not(model.Eq("b", "nope"))))}, {q(model.Or(model.Not(b), a, model.Eq("a", "zz")))}}
 	case "S2": // hit after miss, eviction in flight
 		return [][]c03Query{{q(model.And(a, b)), q(a)}, {q(b), q(model.And(a, b))}}
 	case "S3": // two Executes and a schema read
-		return [][]c03Query{{q(model.Not(a))}, {{Expr: model.Or(a, c), GroupBy: []string{"b"}}}, nil}
+		return [][]c03Query{{q(model.Not(model.Or(a, model.Eq("c", "absent"))))}, {{Expr: model.Or(a, c, model.Eq("b", "absent")), GroupBy: []string{"b"}}}, nil}
 	}
 	panic("scenario")
 }
@@ -464,6 +465,16 @@ func c04RaceServer(ctx *rt.Ctx) []*rt.Violation {
 		}
 		return r
 	}
+	// expected count/number of groups per query of the alphabet, from the model
+	data := model.FromRows(rows)
+	expect := map[int]string{}
+	for i, q := range qs {
+		if sel, err := data.Eval(q.Expr); err == nil {
+			if g, err := data.GroupBy(sel, q.GroupBy); err == nil {
+				expect[i] = fmt.Sprintf("%d/%d", sel.Count(), len(g))
+			}
+		}
+	}
 	batches := [][]int{{1}, {7, 7}, {0, 7, 7, 7}, {7, 1, 7, 2, 7}, {1, 2, 5, 6}, {6, 2, 1, 5, 0, 4, 1, 2}, {7, 7, 7, 7, 7, 7}}
 	for round := 0; round < 3; round++ {
 		logp := filepath.Join(ctx.Scratch, fmt.Sprintf("srvrace-%d", round))
@@ -485,8 +496,20 @@ func c04RaceServer(ctx *rt.Ctx) []*rt.Violation {
 			go func(g int) {
 				defer wg.Done()
 				for i := 0; i < 3; i++ {
-					if _, err := srv.query(mk(1+g%2, 2, 5)); err != nil {
+					ids := []int{1 + g%2, 2, 5}
+					resp, err := srv.query(mk(ids...))
+					if err != nil {
 						errs[g] = err.Error()
+						continue
+					}
+					if len(resp.Results) != len(ids) {
+						errs[g] = fmt.Sprintf("%d results for %d queries", len(resp.Results), len(ids))
+						continue
+					}
+					for k, r := range resp.Results {
+						if want := expect[ids[k]]; r.QueryId != int32(k+1) || fmt.Sprintf("%d/%d", r.TotalCount, len(r.Groups)) != want {
+							errs[g] = fmt.Sprintf("result %d of a concurrent batch is id=%d %d/%d groups, expected id=%d %s", k, r.QueryId, r.TotalCount, len(r.Groups), k+1, want)
+						}
 					}
 				}
 			}(g)
@@ -527,7 +550,7 @@ func c04Run(ctx *rt.Ctx) []*rt.Violation {
 		b, _ := json.Marshal(e3Job{Scenario: p.Scenario, Params: pb, Bound: bound})
 		jobs = append(jobs, rt.Job{Name: fmt.Sprintf("%s-%v-%s-b%d", p.Scenario, p.Preload, p.Cache, bound), NShards: 1, Args: b})
 	}
-	bounds := map[string]int{"S1": 3, "S2": 2, "S3": 2, "S4": 3, "S4b": 2, "S5": 2, "S5b": 1}
+	bounds := map[string]int{"S1": 2, "S2": 2, "S3": 2, "S4": 3, "S4b": 2, "S5": 2, "S5b": 1}
 	if ctx.Thorough() {
 		bounds = map[string]int{"S1": 4, "S2": 3, "S3": 3, "S4": 5, "S4b": 3, "S5": 3, "S5b": 2}
 	}
